@@ -14,7 +14,9 @@ Record setup := mkSetup {
   su_vals : list (N * N);        (* validators (id, commission atomics), in add_validator order *)
   su_accts : list (N * N);       (* accounts (id, initial TOKEN balance) *)
   su_dels : list N;              (* the accounts observed as delegators *)
-  su_t0 : N                      (* initial block time, ns *)
+  su_t0 : N;                     (* initial block time, ns *)
+  su_denom : text;               (* StakingInfo::bonded_denom as configured (the model calls it Staking.TOKEN) *)
+  su_xdenoms : list text         (* the other denominations whose supply is observed: the default "TOKEN" unless bonded, "OTHER" *)
 }.
 
 Inductive op :=
@@ -32,10 +34,16 @@ Record snap := mkSnap {
   sn_del : list (option (N * N));     (* StakingQuery::Delegation per (delegator, validator), delegator-major: (amount, accumulated rewards) *)
   sn_all : list (list (N * N));       (* StakingQuery::AllDelegations per delegator: (validator, amount) *)
   sn_rew : list (option N);           (* StakeKeeper::get_rewards per pair *)
-  sn_bal : list N;                    (* TOKEN balance per account *)
-  sn_pool : N;                        (* TOKEN balance of "staking_module" *)
-  sn_sup : N                          (* BankQuery::Supply of TOKEN *)
+  sn_bal : list N;                    (* balance in the bonded denom per account *)
+  sn_pool : N;                        (* bonded-denom balance of "staking_module" *)
+  sn_sup : N;                         (* BankQuery::Supply of the bonded denom *)
+  sn_xall : list coins;               (* BankQuery::AllBalances per account without the bonded denom *)
+  sn_xsup : list N                    (* BankQuery::Supply per other watched denomination (su_xdenoms) *)
 }.
+
+(* the usual scenario denominations: bonded "ustake"; watched others: the default "TOKEN" and the foreign "OTHER" *)
+Definition USTAKE : text := [117; 115; 116; 97; 107; 101].
+Definition XDEN : list text := [[84; 79; 75; 69; 78]; OTHER].
 
 Definition params_of (su : setup) : params := mkParams (su_unbond su) (su_apr su) (su_vals su).
 Definition pairs (su : setup) : list (N * N) :=
@@ -57,7 +65,9 @@ Definition model_snap (su : setup) (w : world) : sres snap :=
   del <- smap (fun k : N * N => q_delegation P now s (fst k) (snd k)) (pairs su) ;;
   rew <- smap (fun k : N * N => q_rewards P now s (fst k) (snd k)) (pairs su) ;;
   SOk (mkSnap del (map (q_all_delegations P s) (su_dels su)) rew
-              (map (q_balance s) (acct_ids su)) (q_pool s) (q_supply s)).
+              (map (q_balance s) (acct_ids su)) (q_pool s) (q_supply s)
+              (map (fun a => other_coins (s_bank s) (acct a)) (acct_ids su))
+              (map (other_supply (s_bank s)) (su_xdenoms su))).
 
 (* App::execute / App::sudo run in a transaction: a failed call keeps nothing.
    App::update_block: the closure of the harness (`b.time = b.time.plus_nanos(dt)`), then process_queue *)
@@ -100,12 +110,14 @@ Definition init_world (su : setup) : sres world :=
 (* ---------- equality of observations ---------- *)
 
 Definition pN_eqb (a b : N * N) : bool := (fst a =? fst b) && (snd a =? snd b).
+Definition coin_eqb (x y : coin) : bool := beqb (fst x) (fst y) && (snd x =? snd y).
 Definition snap_eqb (a b : snap) : bool :=
   list_eqb (option_eqb pN_eqb) (sn_del a) (sn_del b) &&
   list_eqb (list_eqb pN_eqb) (sn_all a) (sn_all b) &&
   list_eqb (option_eqb N.eqb) (sn_rew a) (sn_rew b) &&
   list_eqb N.eqb (sn_bal a) (sn_bal b) &&
-  (sn_pool a =? sn_pool b) && (sn_sup a =? sn_sup b).
+  (sn_pool a =? sn_pool b) && (sn_sup a =? sn_sup b) &&
+  list_eqb (list_eqb coin_eqb) (sn_xall a) (sn_xall b) && list_eqb N.eqb (sn_xsup a) (sn_xsup b).
 Definition oc_eqb (a b : oc) : bool :=
   match a, b with OOk, OOk | OErr, OErr | OPanic, OPanic | OBlockErr, OBlockErr => true | _, _ => false end.
 Definition ob_eqb (a b : oc * snap) : bool := oc_eqb (fst a) (fst b) && snap_eqb (snd a) (snd b).
@@ -336,13 +348,26 @@ Definition lower_ok (su : setup) (os : ost) (A : snap) (d v : N) : bool :=
 Definition reward_bounds (su : setup) (os : ost) (A : snap) : list fail :=
   chk_pairs su 34 (upper_exact_ok su os A) ++ chk_pairs su 35 (lower_ok su os A).
 
+(* nothing in any OTHER denomination: per account, every denomination named by either AllBalances answer holds the
+   same amount before and after; the supply of every other watched denomination is unchanged *)
+Fixpoint xall_same (xb xa : list coins) : bool :=
+  match xb, xa with
+  | [], [] => true
+  | b :: xb', a :: xa' =>
+      forallb (fun d => amount_of d a =? amount_of d b) (map fst a ++ map fst b) && xall_same xb' xa'
+  | _, _ => false
+  end.
+Definition others_same (B A : snap) : bool :=
+  xall_same (sn_xall B) (sn_xall A) && list_eqb N.eqb (sn_xsup A) (sn_xsup B).
+
 (* 30-33: a successful withdrawal of (d, v) *)
 Definition withdraw_clauses (su : setup) (os : ost) (B A : snap) (d v : N) : list fail :=
   let w := o_waddr os d in
   let r := rw0 (sn_rw su B d v) in
   chk 30 ((0 <? r) && (sn_balance su A w =? sn_balance su B w + r)) ++
   chk 31 (option_eqb N.eqb (sn_rw su A d v) (Some 0) && (sn_shown su A d v =? 0)) ++
-  chk 32 ((sn_sup A =? sn_sup B + r) && (sn_pool A =? sn_pool B) && bals_same_except su B A (N.eqb w) && amts_same su B A) ++
+  chk 32 ((sn_sup A =? sn_sup B + r) && (sn_pool A =? sn_pool B) && bals_same_except su B A (N.eqb w) && amts_same su B A &&
+          others_same B A) ++
   chk_pairs su 33 (fun d' v' => is_pair d v d' v' ||
                                 (option_eqb N.eqb (sn_rw su A d' v') (sn_rw su B d' v') &&
                                  (sn_shown su A d' v' =? sn_shown su B d' v'))).
